@@ -41,6 +41,10 @@ def _single_defs(fn):
                     count[n.id] = count.get(n.id, 0) + 1
                     if isinstance(s, ast.Assign) and len(s.targets) == 1 and t is n:
                         defs[n.id] = s.value
+                    elif isinstance(s, ast.Assign) and len(s.targets) > 1 and t is n:
+                        # chained `local = self._field = {}`: the local is an alias of the field
+                        attrs = [x for x in s.targets if isinstance(x, ast.Attribute)]
+                        defs[n.id] = attrs[0] if attrs else s.value
     return {k: v for k, v in defs.items() if count.get(k) == 1}
 
 
